@@ -127,6 +127,16 @@ def check_pair(acc, pendulum, u1, u2):
     if ga != abs(diff) or a.total_seconds() != abs(diff) / US:
         acc.mismatch("diff", "absolute", case, {"accessor_us": ga, "total_seconds": a.total_seconds()},
                      abs(diff))
+    # the components the difference reports (days, h, min, s, us) are the decomposition of that length
+    for lbl, dur, val in (("signed", d, diff), ("absolute", a, abs(diff))):
+        sg = -1 if val < 0 else 1
+        m = abs(val)
+        want = tuple(sg * x for x in (m // (86400 * US), m // (3600 * US) % 24, m // (60 * US) % 60, m // US % 60, m % US))
+        got = (dur.weeks * 7 + dur.remaining_days, dur.hours, dur.minutes, dur.remaining_seconds, dur.microseconds)
+        acc.c["evaluations"] += 1
+        if got != want or dur.seconds != sg * (m // US % 86400):
+            acc.mismatch("diff", f"{lbl}-components", case, {"components": got, "seconds": dur.seconds},
+                         {"components": want, "seconds": sg * (m // US % 86400)})
     s = t2 - t1
     if obs.td_us(s) != diff:
         acc.mismatch("sub", "t2-t1", case, obs.td_us(s), diff)
